@@ -283,6 +283,8 @@ def bounds(tier):
             "k-nt-reader / k-ttl-reader": "ntriples.unquote and SinkParser.strconst (4 quoting styles) vs a grammar-derived decoder on "
                                           "a <escape> b with a, b symbolic strings of length <= %d and %d enumerated escapes"
                                           % (1 if tier == "quick" else 2, 8 if tier == "quick" else len(kern.ESCAPES)),
+            "k-doc-labels": "4 TriG document shapes with two blank node labels whose last character is a symbolic code point a-z: the real statement "
+                            "parser into a real Dataset; same label <=> same node",
             "k-iri-join": "notation3.join (resolution of relative IRIs against @base): base paths 0-2 levels deep, references with 0-3 '../' "
                           "(also './' and a fragment), segment and file names symbolic (length <= 1 over ab); expected per RFC 3986 5.2",
             "k-rdfxml-lang": "RDFXMLHandler driven with the SAX events of a three-level document; xml:lang presence by shape, values symbolic "
